@@ -300,7 +300,11 @@ def run_grid(case):
                 nbc[ax] = "periodical" if nbc[ax] == "reflecting" else "reflecting"
         sp2 = dict(sp, bc=nbc)
         nb2 = neighbor_sets(sp2)
-        ok, e_ = _try(Gc.set_boundary_conditions, gen.bc_dict_form(nbc, r))
+        handed = gen.bc_dict_form(nbc, r)
+        ok, e_ = _try(Gc.set_boundary_conditions, handed)
+        for k_ in list(handed):                 # the caller's dictionary is the caller's: editing it afterwards changes nothing
+            handed[k_] = "periodical" if handed[k_] == "reflecting" else "reflecting"
+        handed["x"] = "reflecting" if nbc["x"] == "periodical" else "periodical"
         if not ok:
             bad.add("c", "set_boundary_conditions raised on valid conditions", bc=nbc, error=e_)
             continue
